@@ -9,12 +9,17 @@ package daemon
 
 import (
 	"bytes"
+	"context"
 	"encoding/json"
 	"fmt"
 	"os"
 	"path/filepath"
 	"strings"
 	"testing"
+
+	corev1 "k8s.io/api/core/v1"
+	metav1 "k8s.io/apimachinery/pkg/apis/meta/v1"
+	"sigs.k8s.io/controller-runtime/pkg/client/fake"
 
 	"github.com/AliyunContainerService/terway/zzverif/vt"
 )
@@ -142,7 +147,7 @@ func TestVerifConfigChainMerge(t *testing.T) {
 	for _, c := range cases {
 		in := vt.Map(c["in"])
 		fn := vt.Str(in["fn"])
-		if fn != "merge" && fn != "mergefile" {
+		if fn != "merge" && fn != "mergefile" && fn != "mergecm" {
 			continue
 		}
 		n++
@@ -165,6 +170,15 @@ func TestVerifConfigChainMerge(t *testing.T) {
 			apply := func(top, bottom []byte) (*Config, error) {
 				if fn == "merge" {
 					return MergeConfigAndUnmarshal(top, bottom)
+				}
+				if fn == "mergecm" {
+					// the cluster configuration and the node's dynamic configuration as ConfigMaps behind an API client
+					cl := fake.NewClientBuilder().WithObjects(
+						&corev1.ConfigMap{ObjectMeta: metav1.ObjectMeta{Namespace: "kube-system", Name: "eni-config"}, Data: map[string]string{"eni_conf": string(bottom)}},
+						&corev1.ConfigMap{ObjectMeta: metav1.ObjectMeta{Namespace: "kube-system", Name: "dyn-1"}, Data: map[string]string{"eni_conf": string(top)}},
+						&corev1.Node{ObjectMeta: metav1.ObjectMeta{Name: "node-1", Labels: map[string]string{"terway-config": "dyn-1"}}},
+					).Build()
+					return ConfigFromConfigMap(context.Background(), cl, "node-1")
 				}
 				if err := os.WriteFile(baseFile, bottom, 0o600); err != nil {
 					panic(err)
